@@ -21,3 +21,12 @@ pub fn nondet_u8() -> u8 {
 pub fn nondet_u8() -> u8 {
     0
 }
+
+/// what an arm of `tokio::select!` sliced with `macro_block … @value` did: yielded the block's
+/// value, `continue`d the enclosing loop, or `return`ed from the enclosing function
+#[derive(Debug, Clone, Copy, PartialEq)]
+pub enum ArmOutcome<T> {
+    Value(T),
+    Continue,
+    Return,
+}
